@@ -142,3 +142,18 @@ Theorem C15_ext_issue_parse : forall oidc critical d rest,
     Some ([Some (6, oidc); bool_value critical; Some (4, tlv 48 d)], rest).
 Proof. exact ext_ex_issue_parse. Qed.
 Print Assumptions C15_ext_issue_parse.
+
+(* x509_cert_check_crl: "clean" through the high-level entry point exactly when the CRL was fetched, is
+   well-formed and fresh, names the certificate's issuer, verifies under the CA, and does not list the serial *)
+Theorem C15_cert_check_crl_ok_iff : forall fetch p c i s es serial,
+  Forall (fun e => e <> None) es ->
+  (cert_check_crl fetch p c i s es serial = true <->
+   fetch = FetchOk /\ p = true /\ c = true /\ i = true /\ s = true /\ ~ In (Some serial) (map serial_of es)).
+Proof. exact cert_check_crl_ok_iff. Qed.
+Print Assumptions C15_cert_check_crl_ok_iff.
+
+Theorem C15_cert_check_crl_listed : forall fetch p c i s es serial,
+  Forall (fun e => e <> None) es -> In (Some serial) (map serial_of es) ->
+  cert_check_crl fetch p c i s es serial = false.
+Proof. exact cert_check_crl_listed. Qed.
+Print Assumptions C15_cert_check_crl_listed.
